@@ -134,6 +134,9 @@ func (x *Exec) libCall(st *State, fi int, full string, callee *ssa.Function, arg
 		st.assume(Not(Eq(iTag(ctx.T), IntLit(0))))
 		cancel := x.freshRef(st, "cancelfunc")
 		x.isCancel[cancel.S] = true
+		// the cancel func belongs to the derived context
+		x.decls.Fun("ctxcancel", []string{"Iface"}, "Ref")
+		st.assume(Eq(cancel, App("ctxcancel", "Ref", ctx.T)))
 		k(st, Value{Tup: []Value{ctx, {T: cancel, Typ: tup.At(1).Type()}}, Typ: tup})
 		return true
 	case "context.Background":
@@ -303,6 +306,10 @@ func (x *Exec) havocFootprint(st *State, fi int, g *GuardSpec, obj Term, root ty
 			cur := x.heapGet(st, name, sortS)
 			for _, o := range mods[name] {
 				cur = Store(cur, o, x.decls.Fresh("locked."+name, arrayElemSort(sortS)))
+				if st.lockHavoc == nil {
+					st.lockHavoc = map[string][]Term{}
+				}
+				st.lockHavoc[name] = append(st.lockHavoc[name], o)
 			}
 			x.heapSet(st, name, cur)
 		}
